@@ -127,3 +127,37 @@ def zero_check(X, mask, scale, tol, stats, what):
     if e > tol:
         d = int(np.argmax(err))
         raise Violation('%s: order %d has entry of magnitude %.3e where the structure demands 0 (scale %.3g)' % (what, d, v[d], sc[d]))
+
+
+# ---------------------------------------------------------------------------
+# operands as the caller holds them: memory layout, and "the call left them alone"
+# ---------------------------------------------------------------------------
+
+def live_operand(a, is_utpm, layout='C'):
+    """build the object handed to algopy from descriptor data.  layout 'C': fresh C-contiguous array;
+    'T': the operand is a TRANSPOSED VIEW (X.T of a C-contiguous X, i.e. every coefficient block is Fortran-ordered and
+    shares memory with X) -- the form a caller gets from ``A.T``."""
+    from algopy import UTPM
+    a = np.asarray(a)
+    if is_utpm:
+        if layout == 'T' and a.ndim >= 3:
+            ax = (0, 1) + tuple(range(2, a.ndim))[::-1]
+            X = UTPM(np.ascontiguousarray(a.transpose(ax)))
+            return X.T
+        return UTPM(a.copy())
+    if layout == 'T' and a.ndim >= 1:
+        return np.ascontiguousarray(a.T).T
+    return a.copy()
+
+
+def assert_unchanged(obj, a, what):
+    """the defining equations are statements about the curve the caller passed in; a call that overwrites its operand
+    returns factors of a matrix polynomial the caller no longer holds"""
+    data = obj.data if hasattr(obj, 'data') and not isinstance(obj, np.ndarray) else obj
+    data = np.asarray(data)
+    if data.shape != np.asarray(a).shape or not np.array_equal(data, a):
+        bad = np.argwhere(data != a)
+        where = tuple(int(i) for i in bad[0]) if len(bad) else ()
+        raise Violation('%s: the call modified its operand (first difference at %s: %r was %r), so the equation no longer '
+                        'holds for the operand the caller holds' % (what, where, data[where].item() if len(bad) else None,
+                                                                    np.asarray(a)[where].item() if len(bad) else None))
